@@ -40,6 +40,9 @@ type Enc struct {
 	extras    []string
 	appCache  map[string]T
 	wfDone    map[string]bool
+	symStateUsed map[string]T
+	autoDone  map[string]bool
+	lemmaMode bool
 	verAlloc  map[string]T // state-array version -> allocation counter when it was created
 }
 
@@ -49,7 +52,7 @@ func newEnc(p *Program) *Enc {
 	p.strLits = map[string]string{}
 	p.strOrder = nil
 	return &Enc{prog: p, decls: map[string]string{}, defs: map[string]string{}, facts: map[string][]string{},
-		stateSort: map[string]Sort{}, verAlloc: map[string]T{}, wfDone: map[string]bool{}, assumed: map[string]bool{}, usedStr: map[string]bool{}}
+		stateSort: map[string]Sort{}, verAlloc: map[string]T{}, wfDone: map[string]bool{}, symStateUsed: map[string]T{}, assumed: map[string]bool{}, usedStr: map[string]bool{}}
 }
 
 func (e *Enc) note(format string, args ...interface{}) {
